@@ -129,7 +129,11 @@ impl SnmpSocket for SnmpV2cClientSocket {
         msg.push_ber(buf)
     }
 
-    fn unwrap_pdu<'a>(&'a mut self, msg: Self::Message<'a>) -> Option<SnmpPdu<'a>> {
+    fn unwrap_pdu<'a>(
+        &'a mut self,
+        msg: Self::Message<'a>,
+        _raw: &'a [u8],
+    ) -> Option<SnmpPdu<'a>> {
         // Check communnity
         if msg.community != self.community.as_bytes() {
             return None;
